@@ -16,11 +16,11 @@ RULE = ("F1: (27 Content-Length forms) x (16 Transfer-Encoding forms) x header o
         "3 payloads (raw, chunked, CL.TE smuggling payload); F2: every byte 0-255 at 14 request-line positions (method, "
         "separators, target, version) + explicit version list; F3: every byte 0-255 at 16 header positions (name, before colon, "
         "value, Content-Length / Transfer-Encoding value and name); F4: chunked bodies from the C22 grammar and every single-site "
-        "mutation (19 replacement bytes, deletion, CRLF deletion) of 24 bases; F5: obs-fold / leading-CRLF / bare-LF / bare-CR / "
+        "mutation (17 replacement bytes, deletion, CRLF deletion) of 24 bases; F5: obs-fold / leading-CRLF / bare-LF / bare-CR / "
         "colon structure cases. Every stream is followed by 'GET /second' and delivered whole and byte-at-a-time. "
         "non-trivial = distinct streams for which the reference has a must-reject reason or an RFC-permitted choice; "
         "outcomes = distinct (reference verdict class, observed shape)")
-BOUNDS = {"quick": "~36k streams x {whole, bytewise}", "thorough": "quick space + byte sweeps at 2 simultaneous positions over a 24-byte alphabet + 2-site chunk mutations of 8 bases"}
+BOUNDS = {"quick": "38.7k streams x {whole, bytewise}", "thorough": "quick space + byte sweeps at 2 simultaneous positions over a 24-byte alphabet + 2-site chunk mutations of 8 bases"}
 ASSUMPTIONS = [
     "reference = RFC 9112/9110 grammar; where the RFC lets the recipient choose (obs-fold, bare CR/LF/NUL in values, other CTLs, "
     "bare-LF line ends, whitespace-delimited request line, leading empty lines, repeated identical Content-Length, "
@@ -33,8 +33,8 @@ ASSUMPTIONS = [
     "a request after an HTTP/1.0 or Connection: close request may or may not be processed; if processed it must be the reference's",
     "the resource answers 200 immediately; response statuses are read back from the transport bytes",
 ]
-MIN = {"quick": {"evaluations": 50000, "nontrivial": 12000, "outcomes": 25},
-       "thorough": {"evaluations": 200000, "nontrivial": 40000, "outcomes": 25}}
+MIN = {"quick": {"evaluations": 54000, "nontrivial": 21000, "outcomes": 23},
+       "thorough": {"evaluations": 140000, "nontrivial": 21000, "outcomes": 23}}
 
 REQ2 = b"GET /second HTTP/1.1\r\nHost: h\r\n\r\n"
 CRLF = b"\r\n"
@@ -602,6 +602,9 @@ def fam_structure():
             for nm, hs in blocks.items():
                 for payload in (b"", P_RAW, P_CHUNK):
                     yield "F5", lead + rl + CRLF + CRLF.join(hs) + CRLF + CRLF + payload
+    # a body that ends exactly where the stream ends (REQ2 becomes part of the body)
+    for pl in (b"", b"abc"):
+        yield "F5", b"POST /first HTTP/1.1\r\nHost: h\r\nContent-Length: %d\r\n\r\n" % (len(pl) + len(REQ2)) + pl
     # bare-LF line ends
     for s in (b"POST /first HTTP/1.1\nHost: h\nContent-Length: 3\n\nabc",
               b"POST /first HTTP/1.1\nHost: h\nContent-Length: 3\r\n\r\nabc",
